@@ -55,6 +55,16 @@ CLAIMS = {
         text="Exploration. Every prefix of harness-written valid STL/OFF/PLY/CSV files, single-field corruptions (counts, list lengths, indices, type names, removed properties, token edits, byte flips) and dictionary byte soup through ReadSTL/STLReader, ReadOFF/OFFReader, ReadColorPLY, PLYReader/NewPLYHeaderDecode and DecodeCSV under three reader behaviours: no panic, termination (watchdog; row APIs may not return 1e6 rows without consuming input), allocation <= 1 MiB + 64n + 2n^2 measured via TotalAlloc under RLIMIT_AS, and row-count accounting against the bytes present.",
         note="Trusted: Go runtime memory statistics (calibrated, re-measured on excess). Known finding off-degenerate-polygon (ReadOFF panics through TriangulateFace) excluded by construction while it persists.",
         design="3/C16"),
+    "C17": dict(
+        technique="property-based testing (rapid) with planted solutions, defining equations and recording objectives",
+        text="Exploration. Matrices built as Q1*diag(s)*Q2^T with |s| in [0.3,3] (ties, near ties, band-separated): inverses, SVD, eigenvalues, characteristic polynomial, rotations and orthonormal bases against planted factors / defining equations for the numerical and model2d/model3d implementations; least squares against the normal equations; random sparse SPD systems (n <= 60) through the permuted Cholesky factorisation and BiCGSTAB against their stated residuals; polynomials with planted separated real roots and irreducible quadratics (degree 1-8) plus scale-separated quadratics; line/grid/golden-section searches against a recording objective; CanonicalAngle/AngleDist against IEEE remainder; Bezier degree 1-16 against de Casteljau, splitting, polynomial form, inverse lookup and polyline length; SegmentCurve and JoinedCurve against a reference arc-length walk.",
+        note="Trusted: reference linear algebra in harness/c17, math/big-free closed forms. Tolerances for SVD/eigen/least squares are tabulated by the multiplicity of the largest cluster (roots of characteristic polynomials are only determined to eps^(1/m)). Four known findings (three in Matrix4.SVD, cubic root precision) are excluded by construction while they persist.",
+        design="3/C17"),
+    "C18": dict(
+        technique="property-based testing (rapid) with partition / disc-topology / convex-combination / no-flip / disjointness / inverse-lookup invariants",
+        text="Exploration. Closed meshes of genus 0-2, open discs and multi-component meshes (<= 600 faces in the quick tier): chart decomposition assigns every face pointer to exactly one chart, each chart is a connected edge-manifold disc within the requested limits; Floater97 over circle / p-norm / square boundaries with uniform, inverse-chord-length and shape-preserving weights puts boundary vertices where prescribed, interior vertices at the weighted mean of their neighbours, flips no triangle and preserves total area; the automatic atlas maps every face into [0,1]^2 with disjoint chart boxes; MapFn returns the same barycentric point of the corresponding face.",
+        note="Trusted: harness topology and barycentric arithmetic. Two known findings (stretch minimisation with all-boundary triangles, atlas cells smaller than the border) are excluded by construction while they persist.",
+        design="3/C18"),
     "C09": dict(
         technique="model-based (stateful) property testing with rapid: operation histories against a reference face list / Go map",
         text="Exploration. Random histories (<= 45 steps) of Add/Remove/AddMesh/Copy/DeepCopy/Translate/Scale/MapCoords (merging)/Transform/InvertNormals interleaved with queries that build the lazy vertex index at arbitrary moments, for 2D and 3D meshes, compared after every step with a brute-force model over the harness's own list of face pointers; histories over all six coordinate/edge map types of both packages against a Go map keyed by the same type, with hash-colliding and signed-zero keys; and outputs of the library's in-place editors (marching-cubes search, FlattenBase, EliminateEdges, decimation, dual contouring with repair) compared with a fresh mesh of their faces, also after further edits.",
